@@ -418,6 +418,16 @@ def sweep_c_affinity(run, props=('C08', 'C18')):
             if not (got == want or abs(got - want) <= 1e-9 * max(1.0, abs(want))):
                 violations['C18'].append(dict(function='dd_dtw.c::dtw_warping_paths_affinity_ndim', failing_input=calls[0][1], case=k,
                                               oracle=want, engine=got, what='returned value differs from the recurrence A(l1, l2)'))
+        # dtw_wps_max: the reported cell holds the maximum of the matrix
+        om, oe = res.get('m'), res.get('e')
+        if om and om.get('ok') and oe and oe.get('ok'):
+            full = [float.fromhex(x['f']) for x in oe['args_after']['full']['buf']]
+            cells = [(full[a * (l2 + 1) + b], a, b) for a in range(1, l1 + 1) for b in range(1, l2 + 1)]
+            best = max(v for v, _, _ in cells)
+            r_, c_ = om['args_after']['r']['buf'][0], om['args_after']['c']['buf'][0]
+            if best > 0 and not (1 <= r_ <= l1 and 1 <= c_ <= l2 and abs(full[r_ * (l2 + 1) + c_] - best) <= 1e-12 * max(1.0, best)):
+                violations['C18'].append(dict(function='dd_dtw.c::dtw_wps_max', failing_input=calls[3][1], case=k, cell=[r_, c_], oracle=best,
+                                              what='dtw_wps_max reports cell (%s, %s), which does not hold the maximum %r of the matrix' % (r_, c_, best)))
         # the traced path: contiguous, monotone, through positive cells
         o = res.get('b')
         if o and o.get('ok'):
